@@ -34,6 +34,7 @@ def run_bounded(prop, spec, tier, seed, only=None):
     procs = []
     env0 = dict(os.environ, PYTHONPATH=f'{REPO}:{HERE}', PYTHONDONTWRITEBYTECODE='1')
     if only: env0['VERIF_ONLY'] = only
+    if spec.get('case_timeout_s'): env0['VERIF_CASE_TIMEOUT_S'] = str(spec['case_timeout_s'])
     budget = spec.get('shard_budget_s', {}).get(tier)
     if budget: env0['VERIF_SHARD_BUDGET_S'] = str(budget)
     for i in range(NPROC):
@@ -41,7 +42,7 @@ def run_bounded(prop, spec, tier, seed, only=None):
         env = dict(env0, PYTHONHASHSEED=str(hashseeds[i % len(hashseeds)]))
         procs.append((i, out, subprocess.Popen([VENV_PY, '-m', 'bounded.shard', suite, str(i), str(NPROC), tier, str(seed), out],
                                                env=env, stdout=subprocess.PIPE, stderr=subprocess.STDOUT, text=True)))
-    agg = {'cases': 0, 'evaluations': 0, 'nontrivial': set(), 'failures': [], 'harness_errors': [], 'samples': [],
+    agg = {'cases': 0, 'evaluations': 0, 'nontrivial': set(), 'failures': [], 'harness_errors': [], 'samples': [], 'timeouts': [],
            'hashseeds': hashseeds, 'crashed': [], 'truncated': False, 'secs': 0.0}
     for i, out, p in procs:
         log, _ = p.communicate()
@@ -49,7 +50,7 @@ def run_bounded(prop, spec, tier, seed, only=None):
             agg['crashed'].append({'shard': i, 'rc': p.returncode, 'log': (log or '')[-1500:]}); continue
         r = json.load(open(out))
         agg['cases'] += r['cases']; agg['evaluations'] += r['evaluations']; agg['nontrivial'].update(r['nontrivial'])
-        agg['failures'] += r['failures']; agg['harness_errors'] += r['harness_errors']; agg['truncated'] |= r['truncated']
+        agg['failures'] += r['failures']; agg['harness_errors'] += r['harness_errors']; agg['truncated'] |= r['truncated']; agg['timeouts'] += r.get('timeouts', [])
         agg['secs'] = max(agg['secs'], r['secs'])
         if len(agg['samples']) < 3: agg['samples'] += r['samples'][:1]
     shutil.rmtree(tmp, ignore_errors=True)
@@ -215,7 +216,7 @@ def check_property(prop, tier, seed):
             'evaluations': total_evals, 'distinct_nontrivial': nontriv,
             'rule': spec.get('rule', ''), 'exhaustive': bool(spec.get('exhaustive_part')),
             'bounded_scope': spec.get('scope', {}).get(tier, ''), 'hashseeds': b['hashseeds'] if b else [],
-            'bounded_truncated_by_time': bool(b and b['truncated']),
+            'bounded_truncated_by_time': bool(b and b['truncated']), 'bounded_cases_skipped_on_per_case_budget': len(b['timeouts']) if b else 0,
             'samples': ([{'obligation': s} for r in pres for s in r['sample'][:1]][:4]) + ([{'bounded_case': c} for c in (b['samples'] if b else [])][:3]),
             'known_findings_matched': sorted(known),
             'undecided': undecided, 'solver_wall_s': round(sum(r['secs'] for r in pres), 1),
